@@ -90,6 +90,23 @@ def _recursion_complete(fn: FuncInfo, body: list, subject: str, over_values: boo
     """The case body maps a recursive call over ALL items (or values) of subject: comprehension or
     loop without filter, slice or conditional element."""
     name = fn.name
+    # merged-branches form: the case only binds a local to the collection (`items = subject` /
+    # `items = subject.values()`), and one shared comprehension over that local does the recursion
+    if len(body) == 1 and isinstance(body[0], (ast.Assign, ast.AnnAssign)):
+        tgt = body[0].targets[0] if isinstance(body[0], ast.Assign) else body[0].target
+        val = body[0].value
+        base = val
+        if isinstance(val, ast.Call) and isinstance(val.func, ast.Attribute) and val.func.attr in ('values', 'items') and not val.args:
+            base = val.func.value
+        if isinstance(tgt, ast.Name) and isinstance(base, ast.Name) and base.id == subject:
+            local = tgt.id
+            for n in walk_local(fn.node):
+                if isinstance(n, (ast.ListComp, ast.GeneratorExp, ast.SetComp)) and isinstance(n.generators[0].iter, ast.Name) \
+                        and n.generators[0].iter.id == local:
+                    rec = [c for c in ast.walk(n) if isinstance(c, ast.Call) and (dotted(c.func) or '').split('.')[-1] == name]
+                    if rec and not any(gg.ifs for gg in n.generators):
+                        return True, ''
+            return False, f'`{local}` is bound to the collection but never searched completely'
     for s in body:
         for n in ast.walk(s):
             if isinstance(n, (ast.ListComp, ast.GeneratorExp, ast.SetComp, ast.DictComp)):
